@@ -132,8 +132,18 @@ func runModifier(c ModCase) *harn.Failure {
 
 	var f *harn.Failure
 	p := guard.Call(20*time.Second, func() {
-		for round := 1; round <= 2; round++ {
+		for round := 1; round <= 3; round++ {
 			beforeRaw, _ := json.Marshal(contact)
+			if round == 3 {
+				// third application on the contact as a host stores and reloads it between sprints: still nothing to do
+				reread, rerr := flows.ReadContact(sa, beforeRaw, func(assets.Reference, error) {})
+				if rerr != nil {
+					f = harn.Failf("contact-reads-back", "contact after %s does not read back: %v", c.Modifier, rerr)
+					return
+				}
+				contact = reread
+				beforeRaw, _ = json.Marshal(contact)
+			}
 			var evs []json.RawMessage
 			modified := modifiers.Apply(eng, env, sa, contact, mod, func(e flows.Event) {
 				b, _ := json.Marshal(e)
@@ -159,6 +169,10 @@ func runModifier(c ModCase) *harn.Failure {
 			}
 			if round == 2 && (modified || changed || nChange > 0) {
 				f = harn.Failf("second-application-is-noop", "second application of %s: modified=%v changed=%v change events=%d", c.Modifier, modified, changed, nChange)
+				return
+			}
+			if round == 3 && (modified || changed || nChange > 0) {
+				f = harn.Failf("application-after-reload-is-noop", "application of %s to the stored and re-read contact (where it had already been applied): modified=%v changed=%v change events=%d", c.Modifier, modified, changed, nChange)
 				return
 			}
 			if round == 1 {
@@ -199,7 +213,7 @@ func drawModifier(t *rapid.T, w *world.World) world.M {
 		return M("type", "language", "language", rapid.SampledFrom([]string{"fra", "eng", "", "spa", "kin"}).Draw(t, "lang"))
 	case 2:
 		f := rapid.SampledFrom(world.FieldDefs).Draw(t, "field")
-		vals := []string{"", "23", "male", "2020-01-01", "18.5", "Kigali", "x", strings.Repeat("v", 641), strings.Repeat("é", 640) + "日", "1999-12-31T23:59:59Z", "23.0", " 23 ", "Rwanda > Kigali City"}
+		vals := []string{"", "23", "male", "2020-01-01", "18.5", "Kigali", "x", strings.Repeat("v", 641), strings.Repeat("é", 640) + "日", "1999-12-31T23:59:59Z", "23.0", " 23 ", "Rwanda > Kigali City", "10-05-2020 12:30", "2020-05-10 12:30", "2020-01-01T10:00:00+02:00", "Centre", "Market", "05/10/2020 1:30 pm"}
 		return M("type", "field", "field", M("key", f["key"], "name", f["name"]), "value", rapid.SampledFrom(vals).Draw(t, "value"))
 	case 3:
 		n := rapid.IntRange(1, 3).Draw(t, "ngroups")
